@@ -114,6 +114,19 @@ class Check:
                         vec = [3.1, -7.7, 4.9] if pert == 'acc' else [21.0, 13.0, -37.0]
                         world['faults'] = [{'kind': 'glitch', 'sensor': pert, 'start': 1, 'len': 1, 'vec': vec}]
                     out.append({'world': world, 'consumers': cons, 'sched_seed': 1, 'lag_bound': 1, 'rng_seed': 1})
+        # slow loggers: every recursive filter on a fast constant turn sampled at 0.1 / 0.25 / 1 s (seed independent)
+        rec = [{'kind': k, 'params': dict(v)} for k, v in (
+            ('madgwick_imu', {'gain': 0.033}), ('madgwick_marg', {'gain': 0.041}), ('mahony_imu', {}), ('mahony_marg', {}),
+            ('ekf_imu', {'frame': 'NED'}), ('ekf_marg', {'frame': 'NED'}), ('ekf_marg', {'frame': 'ENU'}), ('aqua_imu', {}), ('aqua_marg', {}),
+            ('fourati', {}), ('roleq', {'frame': 'NED'}), ('angular', {'method': 'closed'}), ('angular', {'method': 'series', 'order': 3}),
+            ('fkf', {}), ('complementary_imu', {}), ('complementary_marg', {}))]
+        for dt in (0.1, 0.25, 1.0):
+            for rate in (1.0, 3.0, 10.0):
+                for ax in ([0.6, -0.48, 0.64], [0.0, 0.0, 1.0]):
+                    world = {'dt': dt, 'q0': [0.5, 0.5, -0.5, 0.5], 'segments': [{'t': 'rate', 'len': 300 if tier == 'quick' else 1500, 'w': [rate * x for x in ax]}],
+                             'g': 9.81, 'mscale': 50.0, 'dip': 60.0, 'noise': {'acc': 1e-3, 'mag': 1e-3, 'gyr': 1e-3}, 'noise_seed': 7, 'gyr_floor': 0.0, 'faults': []}
+                    for c in rec:
+                        out.append({'world': world, 'consumers': [c], 'sched_seed': 1, 'lag_bound': 1, 'rng_seed': 1})
         return out
 
     def gen(self, seed, tier):
@@ -233,7 +246,10 @@ class Check:
         fired = any(hist.fired.values())
         sig = None
         if carried >= 10 or fired or pose_ticks:
-            sig = f"{pipe.interleaving_signature()}|{scn['world']['noise_seed']}|{'+'.join(sorted(c['kind'] for c in scn['consumers']))}"
+            import hashlib
+            import json as _json
+            wh = hashlib.sha256(_json.dumps(scn['world'], sort_keys=True).encode()).hexdigest()[:10]
+            sig = f"{pipe.interleaving_signature()}|{wh}|{'+'.join(sorted(c['kind'] for c in scn['consumers']))}"
         return {'violations': viol, 'stats': stats, 'digest': pipe.log.digest(), 'sig': sig, 'sim_seconds': hist.n * hist.dt}
 
     @staticmethod
